@@ -49,25 +49,37 @@ pub fn tree(v: Value, depth: u32) -> String {
 #[derive(Default)]
 pub struct Aux {
     pub log: Vec<(String, Vec<String>)>,
+    /// bytes logged so far: a run that logs more than LOG_LIMIT is cut off with a resource error
+    pub bytes: usize,
+}
+const LOG_LIMIT: usize = 1_500_000;
+fn record(vm: &mut Vm<Aux>, name: &str, args: Vec<String>) -> Result<(), ExecutionErrorPayload> {
+    let aux = vm.get_aux_mut();
+    aux.bytes += args.iter().map(|a| a.len()).sum::<usize>() + 16;
+    if aux.bytes > LOG_LIMIT {
+        return Err(ExecutionErrorPayload::OutOfMemory);
+    }
+    aux.log.push((name.to_string(), args));
+    Ok(())
 }
 
 fn n_log1(vm: &mut Vm<Aux>, v: Value) -> Result<Value, ExecutionErrorPayload> {
     let t = tree(v, TREE_DEPTH);
-    vm.get_aux_mut().log.push(("log1".into(), vec![t]));
+    record(vm, "log1", vec![t])?;
     Ok(Value::Nil)
 }
 fn n_add2(vm: &mut Vm<Aux>, a: i64, b: i64) -> Result<Value, ExecutionErrorPayload> {
-    vm.get_aux_mut().log.push(("add2".into(), vec![format!("(trint {})", out::z(a)), format!("(trint {})", out::z(b))]));
+    record(vm, "add2", vec![format!("(trint {})", out::z(a)), format!("(trint {})", out::z(b))])?;
     Ok(Value::Integer(a.wrapping_add(b)))
 }
 fn n_fail0(vm: &mut Vm<Aux>) -> Result<Value, ExecutionErrorPayload> {
-    vm.get_aux_mut().log.push(("fail0".into(), vec![]));
+    record(vm, "fail0", vec![])?;
     Err(ExecutionErrorPayload::invalid_argument("fail0 always fails"))
 }
 /// re-entrant: calls the function value f with the one argument x
 fn n_call1(vm: &mut Vm<Aux>, f: Value, x: Value) -> Result<Value, ExecutionErrorPayload> {
     let t = vec![tree(f, TREE_DEPTH), tree(x, TREE_DEPTH)];
-    vm.get_aux_mut().log.push(("call1".into(), t));
+    record(vm, "call1", t)?;
     vm.stack_push(x)?;
     vm.run_function(f)
 }
@@ -1243,7 +1255,18 @@ pub fn gen_program(rng: &mut Rng, feats: &mut BTreeMap<String, u64>, allow_shado
     }
     cards.push(Card::set_global_var("gf", Card::function_value(g.call_name(0, 1))));
     cards.push(Card::set_global_var("t0", Card::from(CardBody::CreateTable)));
-    cards.push(Card::set_global_var("t1", Card::from(CardBody::Array(vec![int(3), int(1), int(2)]))));
+    // the table the library functions mostly work on: 0-8 entries with duplicates, ties under the
+    // ordering of the language (strings by length, nil as 0), sometimes reals
+    let nt = if g.rng.chance(1, 3) { 3 } else { g.rng.below(9) as usize };
+    let items: Vec<Card> = (0..nt)
+        .map(|i| match g.rng.weighted(&[6, 2, 1, if g.reals { 2 } else { 0 }]) {
+            0 => int([3, 1, 2, 1, 0, 2, -1, 3][(i + g.rng.below(3) as usize) % 8]),
+            1 => strc(*g.rng.pick(&["", "a", "b", "bb", "cc"][..])),
+            2 => CardBody::ScalarNil.into(),
+            _ => CardBody::ScalarFloat(*g.rng.pick(&[1.5f64, 2.0, -0.5, 1.0][..])).into(),
+        })
+        .collect();
+    cards.push(Card::set_global_var("t1", Card::from(CardBody::Array(items))));
     if std::env::var("C01_UNSET").is_ok() && g.rng.chance(1, 3) {
         // `low` gets the first global slot at compile time and is never assigned
         cards.insert(0, bin(CardBody::IfTrue, int(0), Card::call_native("log1", vec![rd("low")])));
